@@ -7,8 +7,10 @@ rows, kept, caught, missed, na = [], 0, 0, [], []
 
 
 def key(d):
-    m = re.match(r'(C\d+)-(r(\d+))?m(\d+)(p?)', d)
-    return (m.group(1), int(m.group(3) or 1), int(m.group(4)), m.group(5))
+    m = re.match(r'(C\d+)-(?:r(\d+))?(?:m(\d+)(p?)|h(\w+))', d)
+    if m.group(5):
+        return (m.group(1), 99, 0, m.group(5))  # historical reverts of repairs, after the seeded rounds
+    return (m.group(1), int(m.group(2) or 1), int(m.group(3)), m.group(4))
 
 
 for d in sorted(os.listdir(os.path.join(V, "seeded")), key=key):
